@@ -73,6 +73,7 @@ func genSegmentation(t *rapid.T, sc *Scenario) {
 }
 
 func TestC08(t *testing.T) {
+	enumerateC08(t)
 	rapid.Check(t, func(t *rapid.T) {
 		o := genOpts{maxBlob: 16, backendKinds: []string{"ok", "ok", "ok", "ok", "error", "trailers_only", "http_status"}}
 		base := genScenario(t, o)
